@@ -7,10 +7,43 @@ CHECKS = {
 }
 def add(i, cat, tech, text, note, ref): CHECKS[i]=(cat,tech,text,note,ref)
 
+add("C01","exploration","stateful property-based testing (proptest histories) against a snapshot-isolation reference model + visibility-kernel law checks",
+    "Generated multi-session histories (2-4 sessions, every mutation kind through API/GQL/Cypher/SPARQL, 15 read kinds at every position, 3 interference modes) compared read by read with an SI model; reads whose footprint is touched by a listed MVCC defect are compared modulo the affected entities and attributed to that finding, all others must match exactly. Plus explicit (epoch, tx) probes of VersionChain / LpgStore versioned API against the documented visibility predicate, and gc-preserves-visibility.",
+    "Trusts the harness' SI model; edge deletion through query text is excluded (it deletes a node on the pinned tree); only SnapshotIsolation/Serializable levels; single-threaded interleavings (true parallelism belongs to C20).","DESIGN.md §4 C01")
+add("C02","exploration","stateful property-based testing: one generated transaction x 4 endings, full observable-state battery against a reference model",
+    "A generated transaction (creates, SET/REMOVE, labels, DETACH DELETE, MERGE, triples) over a generated graph is ended by commit / rollback / refused commit (conflict forced through the transaction manager hook) / session drop; fresh sessions then read everything through 15 read kinds, index lookups and SPARQL, outside and inside a later transaction; the result must equal the model state before (rollback/refusal/drop) or after (commit) the transaction. Residue of in-place writes after rollback is a listed finding, tolerated only on the entities such a write touched.",
+    "Shares C01's model and assumptions; the refused commit is provoked via hook H5 because sessions never register writes.","DESIGN.md §4 C02")
+add("C03","exploration","model-based property testing of TransactionManager histories + exhaustive small-scope enumeration + threaded commits",
+    "Random and exhaustively enumerated (<=3 transactions, 2 entities, N steps) begin/write/commit/abort/gc histories against a first-committer-wins model; gc metamorphic relation (history with gc stripped / gc after every step gives the same decisions); epochs unique and increasing; real threads committing behind barriers; session-level sub-check.",
+    "Session layer never registers writes (listed finding); ParallelExecutor not covered.","DESIGN.md §4 C03")
+add("C04","exploration","model-based property testing + exhaustive small-scope enumeration with reads and isolation levels; dependency-graph acyclicity",
+    "C03's generator with reads and mixed isolation levels against an SSI backward-validation model; the committed Serializable transactions' ww/wr/rw dependency graph must be acyclic.",
+    "Read-only Serializable refusal is a listed finding (its one-line repair contradicts an existing unit test).","DESIGN.md §4 C04")
+add("C05","exploration","model-based property testing of persistent histories (open/close cycles, durability modes, checkpoints, rotations) against an abstract graph model",
+    "Histories over a persistent database (every mutating API call with every value type, statements, wal_checkpoint, sync, 1-5 reopen cycles, all durability modes) and at WalManager level (max_log_size from 64 B, rotations, checkpoints at generated positions); dump(reopened) == model, bit for bit; fresh ids never collide.",
+    "Scratch databases live on tmpfs by default (VERIF_TMP); statement mutations are not logged by the engine (listed finding).","DESIGN.md §4 C05")
+add("C06","fault_enumeration","enumerated crash images (every truncation length, checkpoint/rotation step mixes, bit flips, continuation) of generated histories, opened in a child worker process",
+    "For each generated history the WAL directory image after every op is recorded; crash images are constructed (every byte length of the tail, stale/partial checkpoint temp file, freshly rotated file, bit flips on framing fields and a stride, crash->reopen->write->close->reopen) and opened in a worker process (RLIMIT_AS, deadline); the recovered dump must be a prefix state at or after the last durable point; torn/flipped records never applied.",
+    "Crash model = prefixes of what the process wrote + bit flips + enumerated step mixes; sector reordering and fsync lies are not modelled; exhaustive bit flips only for logs <= 512 B.","DESIGN.md §4 C06")
+add("C08","exploration","differential property-based testing: generated graphs x query ASTs rendered to 4 languages vs an independent reference evaluator; cross-language agreement",
+    "Graphs (0-12 nodes, self-loops, parallel edges, missing/heterogeneous properties) x queries from the core grammar rendered to GQL/Cypher/Gremlin/GraphQL, compared as multisets (sequences on ORDER BY keys; validity predicate under SKIP/LIMIT) with a nested-loop three-valued reference evaluator; known engine defects are recognised by dynamic signatures (the engine's rows must equal the reference evaluated with exactly that defect).",
+    "Trusts the reference evaluator; Int 2 and Float 2.0 are not distinguished in results; Gremlin/GraphQL express only a small fragment of the grammar.","DESIGN.md §4 C08")
+add("C11","exploration","metamorphic property-based testing (ternary-logic partitioning, count, DISTINCT, SKIP/LIMIT windows, UNION) in five languages",
+    "Relations between results of related queries on one database: Q = Q∧p ⊎ Q∧¬p ⊎ Q∧(p IS NULL); count = rows; DISTINCT = set of rows; SKIP s LIMIT n = slice of the ordered result (graphs of 2047/2048/2049/4097 nodes cross the chunk boundary); UNION ALL = concatenation.",
+    "No reference evaluator: only the relations are asserted; an Err is 'cannot express'.","DESIGN.md §4 C11")
 add("C15","exploration","property-based round-trip testing (proptest) of every codec against identity / naive reference",
     "Generated sequences per codec (boundary lengths, widths 0..=64, extremes) checked for decode∘encode = id, random access = full decode, from_bytes∘to_bytes = id, compressed = uncompressed property reads, succinct structures vs naive rank/select. Exploration: absence is not established.",
     "Trusts the harness' naive reference implementations; tiered-storage epoch_store.rs is not built (non-default feature).","DESIGN.md §4 C15")
 
+add("C16","exploration","algebraic-law property testing of value wrappers + bit-exact round-trips through every serialisation + operator-level consequences",
+    "HashableValue/OrderableValue laws (equivalence, total order, eq<=>cmp, eq=>hash) on pairs/triples biased to near-equal values; bit-for-bit round-trips through bincode (WAL records, snapshots), spill serializer, serde_json; DISTINCT/GROUP BY/sort/index operators neither merge unequal nor split equal values.",
+    "cdylib/Python/Node/wasm JSON conversions are not linked; SortOperator cross-type/NaN/timestamp ordering are listed findings.","DESIGN.md §4 C16")
+add("C18","exploration","model-based property testing of HNSW histories + reference distance kernels + construction-derived quantiser bounds",
+    "insert/re-insert/remove/search histories on HnswIndex/QuantizedHnswIndex (4 metrics, dims 1..257, k/ef 0..>n): results <= k, distinct, live, true distance, ascending, count = min(k, reachable) via the layer-0 graph hook; brute-force kNN exact; SIMD kernels vs f64 definitions; batch = one-by-one; scalar/binary/product quantiser bounds that follow from their construction.",
+    "Distance tolerance 1e-3 relative + conditioning floor; HashMap-order-dependent entry-point choice makes graph shape vary between processes (oracle is a validity predicate).","DESIGN.md §4 C18")
+add("C19","exploration","property-based testing of every bundled algorithm against brute-force definitions on generated multigraphs",
+    "Directed multigraphs (self-loops, parallel/anti-parallel edges, components, weight regimes) x all sources/targets: shortest paths (4 algorithms agree, minimal, paths real), components, topological sort, MST (Kruskal/Prim), max-flow = min-cut, min-cost flow, traversals, triangles/k-core/bridges/articulation, PageRank/closeness/betweenness, ShortestPathOperator, community partitions.",
+    "Conventions (undirected reading, default weight, simple-graph bridges) are adopted from the code's documentation.","DESIGN.md §4 C19")
 NOT_BUILT = {}
 
 def main():
